@@ -164,3 +164,25 @@ func (self *Analyzer) lastIsErrorAt(span errors.Span) bool {
     ensures @iterator-must-be-iterable ast.VScalarKind(result.IterExpression.Type().Kind()) && result.IterExpression.Type().Kind() != ast.StringTypeKind ==> len(self.diagnostics) > old(len(self.diagnostics))
     assert @body-inside-loop before body := self.block(node.Body, false) :: self.currentModule.LoopDepth == old(self.currentModule.LoopDepth)+1
 @*/
+
+// ---------------------------------------------------------------------------
+// Import graph (C05 totality, C15): the cycle check terminates on every graph,
+// including graphs that already contain a cycle elsewhere.
+
+// (The measure is bounded below because `visited` only ever holds names of
+// modules of the table - a counting argument that is stated as a free
+// precondition, not proved.)
+
+/*@ func (self Analyzer) importGraphIsCyclicInner
+    serves C05, C15
+    assume-safety
+    requires visited != nil
+    requires @marks-are-true forall k string in keys(visited) :: visited[k]
+    assumes len(visited) <= len(self.modules)
+    decreases len(self.modules) - len(visited)
+    ensures @found-means-closing-edge isCyclic ==> len(outputPath) > 0 && outputPath[len(outputPath)-1] == originalStart
+    ensures @visited-grows len(visited) >= old(len(visited))
+    ensures @marks-are-true forall k string in keys(visited) :: visited[k]
+    loop 1 invariant len(visited) >= entry(len(visited))
+    loop 1 invariant forall k string in keys(visited) :: visited[k]
+@*/
